@@ -27,6 +27,10 @@ type C11Scenario struct {
 	Fault     string   `json:"fault"`      // none cb-error cancel-before cancel-in-cb read-fail stream-row-fail sql-next sql-query sql-close net-lost-request net-lost-response
 	K         int      `json:"k"`          // position of the fault (callback number, page, row, request)
 	Yields    int      `json:"yields"`
+	// Nested (fault-free runs on MemoryStore / SQLite): the callback's K-th call itself replays the log from the
+	// offset of the NestedFrom-th event - two replays of one store overlap, from different start offsets
+	Nested     bool `json:"nested,omitempty"`
+	NestedFrom int  `json:"nested_from,omitempty"`
 }
 
 func genC11(rt *rapid.T) core.Scenario {
@@ -71,6 +75,10 @@ func genC11(rt *rapid.T) core.Scenario {
 	sc.Fault = rapid.SampledFrom(faults).Draw(rt, "fault")
 	sc.K = rapid.IntRange(0, sc.L+1).Draw(rt, "k")
 	sc.Yields = rapid.IntRange(0, 1).Draw(rt, "yields")
+	if sc.Fault == "none" && sc.Store.Kind != "ds" && rapid.IntRange(0, 1).Draw(rt, "nested") == 1 {
+		sc.Nested = true
+		sc.NestedFrom = rapid.IntRange(0, sc.L).Draw(rt, "nestedFrom")
+	}
 	return sc
 }
 
@@ -164,6 +172,22 @@ func (sc *C11Scenario) Execute(t *testing.T) *core.Outcome {
 			for i := 0; i < sc.Yields; i++ {
 				simrt.Yield(siteCallback)
 			}
+			if sc.Nested && k == sc.K {
+				nfrom := eventbus.OffsetOldest
+				if sc.NestedFrom > 0 {
+					nfrom = offs[sc.NestedFrom-1]
+				}
+				var ngot []int
+				nerr := bus.Replay(ctx, nfrom, func(e *eventbus.StoredEvent) error {
+					var d struct{ I int }
+					json.Unmarshal(e.Data, &d)
+					ngot = append(ngot, d.I)
+					return nil
+				})
+				if nerr != nil || !reflect.DeepEqual(ngot, seq(sc.NestedFrom, sc.L)) && !(len(ngot) == 0 && sc.NestedFrom == sc.L) {
+					out.V("replay-gap-or-duplicate", "[%s batch=%d] a replay started from inside another replay's callback (from event %d, L=%d) delivered %v and returned %v", sc.Store, sc.BatchSize, sc.NestedFrom, sc.L, ngot, nerr)
+				}
+			}
 			if sc.Fault == "cb-error" && k == sc.K {
 				erred = true
 				return cbErr
@@ -247,6 +271,11 @@ func (sc *C11Scenario) Execute(t *testing.T) *core.Outcome {
 	out.Rep = rep
 	if out.HarnessErr == "" {
 		out.HarnessErr = herr
+		if call, hung := storeHang(rep); hung {
+			out.HarnessErr = ""
+			out.V("store-call-never-returned", "a call into the store did not return although nothing else was runnable and a minute of simulated time had passed: %s", call)
+			return out
+		}
 	}
 	if rep == nil {
 		return out
